@@ -937,7 +937,8 @@ fn main() {
     for e in out.known.open.clone() {
         match load_replay(&e.replay) {
             Some(proj) => {
-                let (cmp, _) = evaluate(&farm, &proj, &BTreeSet::new());
+                // only the command family that shows the finding is run (six processes in parallel)
+                let (cmp, _) = evaluate_only(&farm, &proj, &BTreeSet::new(), family_of(&e.key), true);
                 if let Some(w) = &cmp.infra {
                     out.inconclusive(w);
                 }
@@ -953,7 +954,7 @@ fn main() {
     }
 
     // ---- generated projects
-    let n = args.flag("cases").and_then(|s| s.parse().ok()).unwrap_or(args.tier.pick(30usize, 1500usize));
+    let n = args.flag("cases").and_then(|s| s.parse().ok()).unwrap_or(args.tier.pick(20usize, 1500usize));
     let mut runner = vcore::gen::runner(args.subseed(12));
     let strat = spec_strategy();
     let mut trees = vcore::gen::batch(&strat, &mut runner, n);
